@@ -31,6 +31,10 @@ ROWS = {
 ROWS['grid'] = [R('P', A='i:1', B='i:2'), R('P', A='i:2', B='i:1'), R('P', A='i:1', B='i:1'),
                 R('C1', Id='u:1', PA='i:1', PB='i:2'), R('C1', Id='u:2', PA='i:2', PB='i:1'),
                 R('C2', Id='u:3', PA='i:1', PB='i:2'), R('C2', Id='u:4', PA='i:2', PB='i:1')]
+# key values that are different but hash alike in Python (-1 and -2; 1 and 1 + 2**61 - 1): only equal values match
+ROWS['grid_twins'] = [R('P', A='i:-1', B='i:1'), R('P', A='i:-2', B='i:1'), R('P', A='i:1', B='i:-2'),
+                      R('C1', Id='u:1', PA='i:-1', PB='i:1'), R('C1', Id='u:2', PA='i:-2', PB='i:1'), R('C1', Id='u:3', PA='i:1', PB='i:-1'),
+                      R('C2', Id='u:4', PA='i:-2', PB='i:1'), R('C2', Id='u:5', PA='i:1', PB='i:-1')]
 ROWS['phrase_ends'] = [R('P', Id='u:5'), R('P', Id='u:6'), R('D', Id='u:1', O_Id='u:5', W_Id='u:6'),
                        R('D', Id='u:2', O_Id='u:6', W_Id='u:0'), R('D', Id='u:3', O_Id='u:7', W_Id='u:5')]
 MAXROWS = {'quick': 3, 'thorough': 4}
